@@ -1301,6 +1301,16 @@ class Gen:
                     self.do_fn(d)
                 elif d.kind == "slice":
                     self.do_slice(d)
+                elif d.kind == "census":
+                    # completeness of a call-site table: the token sequence must occur exactly n times in the current file
+                    m = re.match(r"`(.*?)`\s*=\s*(\d+)\s*(?:;\s*(.*))?$", d.arg)
+                    if not m:
+                        raise WbxError(f"bad census directive: {d.arg}")
+                    src_text, _ = self.src(self.cur_file)
+                    n = len(find_tokens(src_text, m.group(1), "census"))
+                    if n != int(m.group(2)):
+                        raise WbxError(f"census: `{m.group(1)}` occurs {n}x in {self.cur_file}, the contracts cover {m.group(2)} site(s): a call site is not under contract")
+                    self.meta.setdefault("census", []).append({"tokens": m.group(1), "count": n, "file": self.cur_file, "why": m.group(3) or ""})
                 elif d.kind == "#":
                     pass
                 else:
